@@ -37,22 +37,24 @@ func (c *Coordinator) IsInterfaceNil() bool { return c == nil }
 // confirms the current epoch to a handler at registration time.
 type EpochClock struct {
 	Current  uint32
+	LastTS   uint64 // timestamp that came with the last confirmation (header timestamps need not be monotonic across roll-backs)
 	handlers []vmcommon.EpochSubscriberHandler
 	Events   int
 }
 
 func (e *EpochClock) RegisterNotifyHandler(h vmcommon.EpochSubscriberHandler) {
 	e.handlers = append(e.handlers, h)
-	h.EpochConfirmed(e.Current, 0)
+	h.EpochConfirmed(e.Current, e.LastTS)
 }
 func (e *EpochClock) IsInterfaceNil() bool { return e == nil }
 
 // Confirm plays one clock event to every registered handler.
-func (e *EpochClock) Confirm(epoch uint32) {
+func (e *EpochClock) Confirm(epoch uint32, ts uint64) {
 	e.Current = epoch
+	e.LastTS = ts
 	e.Events++
 	for _, h := range e.handlers {
-		h.EpochConfirmed(epoch, 0)
+		h.EpochConfirmed(epoch, ts)
 	}
 }
 
